@@ -196,12 +196,15 @@ Definition arg_ok (m : mem) (a : arg) : bool :=
   end.
 
 (* ------------------------------------------------------------------ static configuration of a case *)
-Inductive pkind := PImm | PKeep | PBatch | PProbe.
+Inductive pkind := PImm | PKeep | PBatch | PProbe | PRead (b : nat).
 (* PImm  : SimpleLogRecordProcessor, the exporter reads the record inside Export
    PKeep : SimpleLogRecordProcessor, the exporter keeps the recordable and reads it when the case is over
    PBatch: BatchLogRecordProcessor in front of the same keeping exporter
-   PProbe: as PKeep with a recordable that also counts the SDK-internal setter calls *)
-Definition deferred (k : pkind) : bool := match k with PImm => false | _ => true end.
+   PProbe: as PKeep with a recordable that also counts the SDK-internal setter calls
+   PRead b: BatchLogRecordProcessor with max_export_batch_size = b (1..4) in front of an exporter that only READS the
+           records it is handed (copies what it sees, takes nothing out of the span) - whatever it is handed twice it
+           shows twice; everything queued is delivered before the operation that emitted it is over *)
+Definition deferred (k : pkind) : bool := match k with PImm | PRead _ => false | _ => true end.
 
 Record cfg := mk_cfg {
   c_def_dis : bool;                              (* ScopeConfigurator default: LoggerConfig::Disabled()? *)
@@ -336,7 +339,10 @@ Inductive lop :=
 | LLevel (t l : nat) (sev : Z) (args : list arg)   (* the templated Trace(args...) .. Fatal(args...) *)
 | LMut (a : nat) (b : buf)           (* the caller overwrites buffer a *)
 | LAddProc (k : pkind)               (* LoggerProvider::AddProcessor *)
-| LName (l : nat).                   (* logger l ->GetName() *)
+| LName (l : nat)                    (* logger l ->GetName() *)
+| LBurst (t l n : nat) (flush : bool) (args : list arg).
+                                     (* n times logger l ->EmitLogRecord(args...) in a row, the batch exporters held back until
+                                        the last one returned; then ForceFlush (flush) or nothing until the provider shuts down *)
 
 Definition level_sevs : list Z := c13_level_severities.      (* Trace, Debug, Info, Warn, Error, Fatal *)
 Definition is_level (s : Z) : bool := existsb (Z.eqb s) level_sevs.
@@ -382,6 +388,10 @@ Definition emit_with_args (c : cfg) (st : lstate) (l : nat) (sl : slot) (args : 
       let ch' := map_children (fun r => fold_left (fun r a => set_arg a r) args r) ch in
       if logger_enabled c l then Ok (emit_children c st l ch') else Ok st
   end.
+
+(* the same record emitted n times in a row *)
+Fixpoint emit_n (c : cfg) (st : lstate) (l : nat) (ch : list (nat * rec)) (n : nat) : lstate :=
+  match n with 0 => st | S n' => emit_n c (emit_children c st l ch) l ch n' end.
 
 (* logger l ->EmitLogRecord(args...) : CreateLogRecord() on the calling thread, then the above *)
 Definition emit_variadic (c : cfg) (st : lstate) (t l : nat) (args : list arg) : outcome :=
@@ -490,6 +500,15 @@ Definition lstep (c : cfg) (st : lstate) (o : lop) : outcome :=
       | Some (ln, _, _, _) => Ok (with_out st [TB (if logger_enabled c l then ln else map n2b kNoopLoggerName)])
       | None => Ill
       end
+  | LBurst t l n flush args =>
+      if negb (Nat.ltb t nthreads && Nat.ltb l (length (c_loggers c)) && forallb (arg_ok (s_mem st)) args
+               && negb (existsb arg_direct_only args) && Nat.leb n 32) then Ill
+      else
+        let act := active_ident c st t in
+        let st' := if logger_enabled c l
+                   then emit_n c st l (map_children (fun r => fold_left (fun r a => set_arg a r) args r) (create_multi st act)) n
+                   else st in
+        Ok (with_out st' (print_active act ++ (if flush then counts st' else [])))
   end.
 
 Fixpoint lrun (c : cfg) (st : lstate) (ops : list lop) : outcome :=
@@ -530,7 +549,11 @@ Definition print_rec (c : cfg) (k : pkind) (m : mem) (r : rec) : list tok :=
   (if r_res r then [tbool true; TB (c_res c)] else [tag "nores"]) ++
   match k with PProbe => [tag "calls"; tnat (r_nobs r); tnat (r_nres r); tnat (r_nscope r)] | _ => [] end.
 
-Definition pkind_tag (k : pkind) : tok := tag match k with PImm => "I" | PKeep => "K" | PBatch => "B" | PProbe => "P" end.
+Definition pkind_tag (k : pkind) : tok :=
+  tag match k with
+      | PImm => "I" | PKeep => "K" | PBatch => "B" | PProbe => "P"
+      | PRead 1 => "Q1" | PRead 2 => "Q2" | PRead 3 => "Q3" | PRead _ => "Q4"
+      end.
 
 Definition print_entry (c : cfg) (k : pkind) (final : mem) (e : entry) : list tok :=
   match e with EImm m r => print_rec c k m r | EDef r => print_rec c k final r end.
